@@ -5,6 +5,7 @@ import (
 	"math"
 	"os"
 	"runtime"
+	"sync"
 	"sync/atomic"
 	"sort"
 	"strings"
@@ -26,6 +27,9 @@ func runC17(c *mon.Ctx) {
 	c.Cases(func(i int, r *mon.Rand) {
 		c17Values(c, r.Fork(1))
 		c17Conflicts(c, r.Fork(2))
+		if i%3 == 0 || c.Race {
+			c17Concurrent(c, r.Fork(3))
+		}
 	})
 }
 
@@ -38,6 +42,8 @@ type c17Series struct {
 	Updated bool              `json:"updated"`
 	N       uint64            `json:"n"`
 	Bounds  []float64         `json:"bounds,omitempty"` // spec in exposition units (seconds for durations)
+	IsDur     bool  `json:"is_duration,omitempty"`
+	SampleIdx []int `json:"sample_bucket_index,omitempty"` // durations: index of the reference bucket of each sample
 	Samples []float64         `json:"samples,omitempty"`
 }
 
@@ -189,9 +195,19 @@ func c17Values(c *mon.Ctx, r *mon.Rand) {
 				if dspecs[fam] == nil {
 					n := r.Range(1, 12)
 					cur := time.Duration(r.Range(0, 1000)) * time.Microsecond
+					// half of the specs reach far beyond one second with arbitrary
+					// nanosecond digits (where different seconds conversions disagree)
+					wide := r.Bool()
+					if wide {
+						cur = time.Duration(r.U64() >> uint(r.Range(24, 50)))
+					}
 					for j := 0; j < n; j++ {
 						dspecs[fam] = append(dspecs[fam], cur)
-						cur += time.Duration(r.Range(1, 1<<20))
+						if wide {
+							cur += time.Duration(1 + r.U64()>>uint(r.Range(28, 50)))
+						} else {
+							cur += time.Duration(r.Range(1, 1<<20))
+						}
 					}
 				}
 				sp := dspecs[fam]
@@ -211,6 +227,15 @@ func c17Values(c *mon.Ctx, r *mon.Rand) {
 				// compare in the duration domain: remember the sample as the seconds value of its reference upper bound
 				u := mon.RefUpperD(sp, x)
 				m.Samples = append(m.Samples, float64(u)/float64(time.Second))
+				m.IsDur = true
+				bi := len(sp) // +Inf bucket
+				for j, b := range sp {
+					if b == u {
+						bi = j
+						break
+					}
+				}
+				m.SampleIdx = append(m.SampleIdx, bi)
 				s.s.Histogram(fam, tally.DurationBuckets(append([]time.Duration(nil), sp...))).RecordDuration(x)
 				ops = append(ops, fmt.Sprintf("%s%v.Histogram(%s,%v).RecordDuration(%d)", s.prefix, s.tags, fam, sp, x))
 			}
@@ -287,14 +312,24 @@ func c17Values(c *mon.Ctx, r *mon.Rand) {
 					break
 				}
 				for i, b := range h.GetBucket() {
-					if b.GetUpperBound() != s.Bounds[i] {
+					if ub := b.GetUpperBound(); ub != s.Bounds[i] && !(s.IsDur && math.Abs(ub-s.Bounds[i]) <= 4e-16*math.Abs(s.Bounds[i])) {
 						bad(fmt.Sprintf("bucket %d upper bound %v, spec %v", i, b.GetUpperBound(), s.Bounds[i]))
 						break
 					}
 					var want uint64
-					for _, x := range s.Samples {
-						if x <= s.Bounds[i] {
-							want++
+					if s.IsDur {
+						// durations: compared by bucket index in the duration domain, so that
+						// no particular nanoseconds-to-seconds rounding is demanded
+						for _, bi := range s.SampleIdx {
+							if bi <= i {
+								want++
+							}
+						}
+					} else {
+						for _, x := range s.Samples {
+							if x <= s.Bounds[i] {
+								want++
+							}
 						}
 					}
 					if b.GetCumulativeCount() != want {
@@ -486,4 +521,131 @@ func c17Conflicts(c *mon.Ctx, r *mon.Rand) {
 			c.Violation("gather-error", map[string]interface{}{"err": err.Error(), "case": desc})
 		}
 	})
+}
+
+// c17Concurrent: G goroutines released together make the first use of the
+// same families (same name and tag keys; own or shared tag values) on one
+// reporter, the way differently tagged scopes of one application do. No
+// registration error may be reported, and every series must show what was
+// recorded through it.
+func c17Concurrent(c *mon.Ctx, r *mon.Rand) {
+	reg := prom.NewRegistry()
+	var emu sync.Mutex
+	var regErrs []string
+	timerType := tprom.SummaryTimerType
+	if r.Bool() {
+		timerType = tprom.HistogramTimerType
+	}
+	rep := tprom.NewReporter(tprom.Options{Registerer: reg, DefaultTimerType: timerType, OnRegisterError: func(e error) {
+		emu.Lock()
+		regErrs = append(regErrs, e.Error())
+		emu.Unlock()
+	}})
+	G := r.Range(2, 8)
+	shared := r.Bool() // all goroutines use the same tag value (one series) or their own
+	rounds := r.Range(1, 5)
+	desc := map[string]interface{}{"goroutines": G, "shared_tag_value": shared, "rounds": rounds, "timer_type": int(timerType)}
+	c.Eval(1)
+	stop := c.Watchdog(300*time.Second, "no-progress", desc)
+	defer stop()
+	vb := tally.ValueBuckets{1, 2, 4}
+	db := tally.DurationBuckets{time.Millisecond, time.Second}
+	var panics sync.Map
+	for round := 0; round < rounds; round++ {
+		var start, done sync.WaitGroup
+		start.Add(1)
+		for g := 0; g < G; g++ {
+			g := g
+			done.Add(1)
+			go func() {
+				defer done.Done()
+				defer func() {
+					if p := recover(); p != nil {
+						panics.Store(g, fmt.Sprint(p))
+					}
+				}()
+				tv := fmt.Sprintf("v%d", g)
+				if shared {
+					tv = "v"
+				}
+				tags := map[string]string{"k": tv, "z": "1"}
+				start.Wait()
+				sfx := fmt.Sprint(round)
+				rep.AllocateCounter("cc"+sfx, tags).ReportCount(int64(g + 1))
+				rep.AllocateGauge("cg"+sfx, tags).ReportGauge(float64(g + 1))
+				rep.AllocateTimer("ct"+sfx, tags).ReportTimer(time.Duration(g+1) * time.Millisecond)
+				hv := rep.AllocateHistogram("chv"+sfx, tags, vb)
+				hv.ValueBucket(1, 2).ReportSamples(int64(g + 1))
+				hd := rep.AllocateHistogram("chd"+sfx, tags, db)
+				hd.DurationBucket(time.Millisecond, time.Second).ReportSamples(int64(g + 1))
+			}()
+		}
+		start.Done()
+		done.Wait()
+	}
+	panics.Range(func(k, v interface{}) bool {
+		c.Violation("panic-prometheus-concurrent", map[string]interface{}{"why": v, "case": desc})
+		return true
+	})
+	c.Event("concurrent-first-use-allocations", int64(5*G*rounds))
+	if len(regErrs) > 0 {
+		c.Violation("unexpected-register-error", map[string]interface{}{"why": "concurrent first use of one family (same name, same tag keys) reported registration errors", "errors": regErrs, "case": desc})
+	}
+	fams, err := reg.Gather()
+	if err != nil {
+		c.Violation("gather-error", map[string]interface{}{"err": err.Error(), "case": desc})
+		return
+	}
+	got := map[string]float64{}
+	for _, f := range fams {
+		for _, m := range f.GetMetric() {
+			k := f.GetName() + "|" + labelsOf(m)["k"]
+			switch {
+			case m.GetCounter() != nil:
+				got[k] = m.GetCounter().GetValue()
+			case m.GetGauge() != nil:
+				got[k] = m.GetGauge().GetValue()
+			case m.GetSummary() != nil:
+				got[k] = float64(m.GetSummary().GetSampleCount())
+			case m.GetHistogram() != nil:
+				got[k] = float64(m.GetHistogram().GetSampleCount())
+			}
+		}
+	}
+	sumAll := float64(G * (G + 1) / 2)
+	for round := 0; round < rounds; round++ {
+		sfx := fmt.Sprint(round)
+		for g := 0; g < G; g++ {
+			tv := fmt.Sprintf("v%d", g)
+			own := float64(g + 1)
+			wantC, wantT, wantH := own, 1.0, own
+			if shared {
+				tv = "v"
+				wantC, wantT, wantH = sumAll, float64(G), sumAll
+			}
+			chk := func(name string, want float64, exact bool) {
+				v, ok := got[name+sfx+"|"+tv]
+				if !ok {
+					c.Violation("prometheus-missing-series", map[string]interface{}{"why": fmt.Sprintf("series %s%s{k=%s} absent after concurrent first use", name, sfx, tv), "case": desc})
+					return
+				}
+				if exact && v != want {
+					c.Violation("prometheus-value/concurrent", map[string]interface{}{"why": fmt.Sprintf("series %s%s{k=%s} shows %v, recorded %v", name, sfx, tv, v, want), "case": desc})
+				}
+			}
+			chk("cc", wantC, true)
+			chk("ct", wantT, true)
+			chk("chv", wantH, true)
+			chk("chd", wantH, true)
+			if shared {
+				v, ok := got["cg"+sfx+"|"+tv]
+				if !ok || v < 1 || v > float64(G) || v != math.Trunc(v) {
+					c.Violation("prometheus-value/concurrent", map[string]interface{}{"why": fmt.Sprintf("gauge cg%s{k=%s} shows %v (present=%v), not one of the values set", sfx, tv, v, ok), "case": desc})
+				}
+			} else {
+				chk("cg", own, true)
+			}
+		}
+	}
+	c.Distinct(mon.Hash64("conc", fmt.Sprint(desc), fmt.Sprint(r.U64())))
 }
